@@ -49,7 +49,9 @@ def sdl():
             args.append(f"  x{s}{i}(inp: I{s}{i}): Int")
     tf.append("  q: Q")
     return ("scalar B\nscalar P\nscalar S\nscalar DT\nscalar U\nscalar Q\n"
-            "type Query {\n  t: Obj!\n" + "\n".join(args) + "\n}\n"
+            "interface Animal { id: ID! }\ntype Cat implements Animal { id: ID! born: P seen: [B!] }\ntype Dog implements Animal { id: ID! born: P }\ntype Fish implements Animal { id: ID! }\n"
+            "union Pet = Cat | Dog\n"
+            "type Query {\n  t: Obj!\n  zoo: [Animal!]!\n  zooOpt: [Animal]\n  star: Animal\n  pets: [[Pet!]]!\n" + "\n".join(args) + "\n}\n"
             "type Obj {\n" + "\n".join(tf) + "\n  sub: Obj\n  subs: [Obj!]\n}\n" + "\n".join(ins) + "\n")
 
 
@@ -61,6 +63,8 @@ def ops():
             out.append(f"query A{s}{i}($v: {st.replace('T', s)}) {{ e{s}{i}(v: $v) }}")
             out.append(f"query X{s}{i}($inp: I{s}{i}) {{ x{s}{i}(inp: $inp) }}")
     # Q has the same Python type as P but its own parse function: both occur in one operation and in one fragment
+    sel = "{ __typename id ... on Cat { born seen } ... on Dog { born } }"
+    out.append(f"query Zoo {{ zoo {sel} zooOpt {sel} star {sel} pets {{ __typename ... on Cat {{ born }} ... on Dog {{ born }} }} }}")
     out.append("query Nest { t { q rP0 sub { rB0 subs { rB2 ...F } } } }")
     return "\n".join(out)
 
@@ -253,6 +257,40 @@ def nested_result_case(which: int):
     if which == 0:
         ok = ok and obj.t.q == "q:qq" and obj.t.sub.subs[0].q == "q:w" and obj.t.sub.subs[0].r_p_1 == "p:z"
     return ok, f"nested: calls {SC.CALLS}"
+
+
+def abstract_case(which: int):
+    """scalars with parse inside members of abstract types held in (non-null / nullable / nested) lists: once per occurrence"""
+    del SC.CALLS[:]
+    Model = getattr(PKG, META["Zoo"].model)
+    cat = {"__typename": "Cat", "id": "1", "born": "c1", "seen": ["s1", "s2"]}
+    dog = {"__typename": "Dog", "id": "2", "born": "d1"}
+    fish = {"__typename": "Fish", "id": "3"}
+    empty = {"zoo": [], "zooOpt": None, "star": None, "pets": []}
+    payload, want = [
+        (dict(empty, zoo=[dog, cat, fish]), [("parse_p", "d1"), ("parse_p", "c1"), ("parse_b", "s1"), ("parse_b", "s2")]),
+        (dict(empty, zooOpt=[cat, None, dog]), [("parse_p", "c1"), ("parse_b", "s1"), ("parse_b", "s2"), ("parse_p", "d1")]),
+        (dict(empty, star=dog), [("parse_p", "d1")]),
+        (dict(empty, pets=[[{"__typename": "Dog", "born": "d1"}], None, [{"__typename": "Cat", "born": None}, {"__typename": "Dog", "born": "d2"}]]), [("parse_p", "d1"), ("parse_p", "d2")]),
+        (dict(empty, zoo=[dict(cat, born=None, seen=None)]), []),
+    ][which]
+    Model.model_validate(payload)
+    return sorted(map(str, SC.CALLS)) == sorted(map(str, want)), f"abstract #{which}: calls {SC.CALLS}"
+
+
+def check_abstract_results(which: int) -> bool:
+    """
+    post: _
+    """
+    if SETUP_ERROR:
+        return False
+    w = pick(which, 5)
+    with NoTracing():
+        try:
+            ok, _ = abstract_case(w)
+        except Exception:
+            ok = False
+    return ok
 
 
 def check_results(si: int, ki: int, sh: int) -> bool:
